@@ -14,6 +14,7 @@ import PS.Proofs.UcfgFromDftaLang
 import PS.Proofs.UcfgFromDftaCount
 import PS.Proofs.UcfgFromDftaNodup
 import PS.Proofs.UcfgFromDftaClean
+import PS.Proofs.UcfgFromDftaTerm
 import PS.Proofs.FromCfg
 import PS.Proofs.UcfgFromDftaCfg
 import PS.Proofs.Mass
@@ -73,6 +74,42 @@ theorem C06_ngram_unambiguous_partial (n : Int) (d : Q → UNT U) (A : DFTA Sym 
     (h : fromDFTAWithNgrams n d A fuel = some G) (t : Prog) :
     (reduceAll G t).length = if A.accepts t = true then 1 else 0 :=
   reduceAll_length (built_of_build _ A _ G h) (ngramFlat_ok n d A hinj) hd t
+
+/-- **termination of `from_DFTA_with_ngrams`** (every width, also unbounded contexts): on an
+    acyclic automaton whose states are not merged by the flattening, the `while stack` loop
+    returns for every number of iterations beyond a bound (the size of the unfolding of the
+    final states) — together with the three theorems above: total correctness. -/
+theorem C06_ngram_terminates_partial (n : Int) (d : Q → UNT U) (A : DFTA Sym Q) (hinj : InjOn d A)
+    (hac : Acyclic A) (hf : A.finals ≠ []) :
+    ∃ fuel0, ∀ fuel, fuel0 ≤ fuel → ∃ G, fromDFTAWithNgrams n d A fuel = some G := by
+  obtain ⟨rank, hrank⟩ := hac
+  -- a ranking of the flattened states
+  let rankU : UNT U → Nat := fun x =>
+    match A.allStates.find? (fun q => decide (d q = x)) with
+    | some q => rank q
+    | none => 0
+  have hru : ∀ q ∈ A.allStates, rankU (d q) = rank q := by
+    intro q hq
+    show (match A.allStates.find? (fun q' => decide (d q' = d q)) with
+      | some q' => rank q' | none => 0) = rank q
+    cases hfind : A.allStates.find? (fun q' => decide (d q' = d q)) with
+    | none =>
+      have := List.find?_eq_none.mp hfind q hq
+      simp at this
+    | some q' =>
+      have h1 := List.find?_some hfind
+      have h2 := List.mem_of_find?_eq_some hfind
+      simp only [decide_eq_true_eq] at h1
+      rw [hinj q' h2 q hq h1]
+  have hrk : ∀ r ∈ A.rules, ∀ a ∈ r.1.2, rankU ((ngramFlat n d).d a) < rankU ((ngramFlat n d).d r.2) := by
+    intro r hr a ha
+    have hst := mem_allStates_of_rule A (l := r.1.1) (args := r.1.2) (d := r.2) hr
+    show rankU (d a) < rankU (d r.2)
+    rw [hru a (hst.2 a ha), hru r.2 hst.1]
+    exact hrank r hr a ha
+  refine ⟨potential (ngramFlat n d) A rankU (startsOf (ngramFlat n d) A) + 1, ?_⟩
+  intro fuel hfuel
+  exact build_terminates (ngramFlat n d) A rankU (fun _ _ _ _ => rfl) hrk hf fuel (by omega)
 
 /-! ## `programs()` -/
 
